@@ -591,6 +591,70 @@ func c08Families(tier string) []explore.Family {
 		}
 	}})
 
+	// (E4) filters belong to the engine they were registered on: two engines register DIFFERENT functions under
+	// the same names (and one name on one engine only); the same sources are parsed and rendered on both, in
+	// both orders, in one process - whatever is remembered between parses must not cross engines.
+	mkOwn := func(tag string, withOnly bool) *liquid.Engine {
+		e := liquid.NewEngine()
+		e.RegisterFilter("own", func(v any) string { return tag + ":" + fmt.Sprint(v) })
+		e.RegisterFilter("own2", func(v any, n func(int) int) string { return fmt.Sprintf("%s%d:%v", tag, n(7), v) })
+		if withOnly {
+			e.RegisterFilter("only_here", func(v any) string { return "only:" + fmt.Sprint(v) })
+		}
+		return e
+	}
+	engA, engB := mkOwn("A", true), mkOwn("B", false)
+	ownSrc := []string{
+		"{{ x | own }}", "{{ x|own }}", "{{ x | own | upcase }}", "{{ x | upcase | own }}", "{% assign y = x | own %}{{ y }}",
+		"{% assign t = x | own %}{% if t == 'A:v' %}isA{% else %}notA{% endif %}", "{{ x | own2 }}|{{ x | own2: 3 }}", "{% for c in l %}{{ c | own }},{% endfor %}",
+		"{{ 'lit' | own }}", "{{ l[0] | own }}{{ m.k | own }}", "{% capture c %}{{ x | own }}{% endcapture %}{{ c | own }}",
+		"{{ x | only_here }}", "{{ x | own | only_here }}", "{% assign z = x | only_here %}{{ z }}",
+	}
+	fams = append(fams, explore.Family{Name: "filters-belong-to-their-engine", Count: int64(len(ownSrc) * 2), Run: func(i int64, r *explore.Rec) {
+		src, bFirst := ownSrc[int(i)/2], int(i)%2 == 1
+		bind := func() map[string]any {
+			return map[string]any{"x": "v", "l": []any{"p", "q"}, "m": map[string]any{"k": "w"}}
+		}
+		want := func(tag string) (string, bool) { // expected output, or failure when only_here is missing
+			if strings.Contains(src, "only_here") && tag == "B" {
+				return "", false
+			}
+			rep := strings.NewReplacer("{{ x | own }}", tag+":v", "{{ x|own }}", tag+":v", "{{ x | own | upcase }}", strings.ToUpper(tag+":v"), "{{ x | upcase | own }}", tag+":V",
+				"{% assign y = x | own %}{{ y }}", tag+":v", "{{ x | own2 }}|{{ x | own2: 3 }}", tag+"7:v|"+tag+"3:v", "{% for c in l %}{{ c | own }},{% endfor %}", tag+":p,"+tag+":q,",
+				"{{ 'lit' | own }}", tag+":lit", "{{ l[0] | own }}{{ m.k | own }}", tag+":p"+tag+":w", "{% capture c %}{{ x | own }}{% endcapture %}{{ c | own }}", tag+":"+tag+":v",
+				"{{ x | only_here }}", "only:v", "{{ x | own | only_here }}", "only:"+tag+":v", "{% assign z = x | only_here %}{{ z }}", "only:v")
+			out := rep.Replace(src)
+			if strings.HasPrefix(src, "{% assign t = x | own %}{% if") {
+				out = map[string]string{"A": "isA", "B": "notA"}[tag]
+			}
+			return out, true
+		}
+		order := []struct {
+			tag string
+			e   *liquid.Engine
+		}{{"A", engA}, {"B", engB}, {"A", engA}}
+		if bFirst {
+			order[0], order[1], order[2] = order[1], order[0], order[1]
+		}
+		for step, en := range order {
+			r.Eval()
+			r.Transition()
+			r.Trace()
+			o := Render(en.e, src, bind())
+			exp, ok := want(en.tag)
+			desc := map[string]any{"template": src, "engine": en.tag, "step": step, "order_B_first": bFirst}
+			switch {
+			case o.Panic != nil:
+				r.Violation("filter-crosses-engines:panic", desc, "output or error", o.String())
+			case !ok && o.Err == nil:
+				r.Violation("filter-crosses-engines:unknown-filter-accepted", desc, "an error: only_here is not registered on engine B", o.String())
+			case ok && (o.Err != nil || o.Out != exp):
+				r.Violation("filter-crosses-engines", desc, exp, o.String())
+			}
+		}
+		r.Class("own-engine")
+	}})
+
 	// (E3) unknown filter; one argument too many, for every standard filter
 	stdf := StdFilters()
 	fams = append(fams, explore.Family{Name: "unknown-filter-and-arity", Count: int64(len(stdf) + 1), Run: func(i int64, r *explore.Rec) {
